@@ -42,7 +42,7 @@ CHECKS['C15'] = ('exploration',
    'DESIGN.md 2/C15')
 CHECKS['C17'] = ('exploration',
    'runtime comparison of Polygon.Vertices() / Bezier.Polygon().Vertices() with independently constructed fillet, chamfer, arc, relative/polar and de Casteljau geometry',
-   'Generates corner geometries (1..179 degrees, both turning directions, fit / no-fit by either edge), radii, facet counts, arcs (chords, radii, signs), relative/polar chains, N-gons and Bezier control polygons of degree 1..4 with handles, closed/open, and checks every produced vertex against an independent construction (tangent points, circle membership, equal angular spacing, on-curve with increasing parameter, exact end points).',
+   'Generates corner geometries (1..179 degrees, both turning directions, fit / no-fit by either edge), radii, facet counts, arcs (chords, radii, signs), relative/polar chains, N-gons and Bezier control polygons of degree 1..4 with handles, closed/open, and checks every produced vertex against an independent construction (tangent points, circle membership, equal angular spacing, on-curve with increasing parameter, exact end points). Look histories: every outline is rebuilt with Vertices() called while it is being built (after every vertex / after a PRNG-chosen subset) and must finish as the same outline.',
    'Judged only where fit/no-fit is clear by a 2% margin and adjacent fillets do not compete for the same edge; angles below 1 or above 179 degrees are skipped (acos conditioning).',
    'DESIGN.md 2/C17')
 CHECKS['C18'] = ('exploration',
